@@ -49,41 +49,64 @@ def word(n):
     return f"w{n:02d}x"
 
 
+def text(n):
+    """What a documentation line says: its tracer word, the same word in double and in single quotes, and an apostrophe."""
+    w = word(n)
+    return f"{w} \"{w}q\" and '{w}r' don't"
+
+
+def words_of(n):
+    w = word(n)
+    return [w, w + "q", w + "r"]
+
+
+def expected_words(first, count):
+    return [x for k in range(count) for x in words_of(first + k)]
+
+
 def entity_lines(i, e, nd, marks, stmt, closer, ind="  "):
     """Lines of entity i following DocRoute.AddEntity, with real statements."""
     p = e["p"]
     D, P, DA, PA = marks["docmark"], marks["predocmark"], marks["docmark_alt"], marks["predocmark_alt"]
     out = []
     if p in ("pre1", "pre1_inline", "pre1_after1"):
-        out.append(f"{ind}!{P} {word(nd)}")
+        out.append(f"{ind}!{P} {text(nd)}")
     elif p == "pre2":
-        out += [f"{ind}!{P} {word(nd)}", f"{ind}!{P} {word(nd + 1)}"]
+        out += [f"{ind}!{P} {text(nd)}", f"{ind}!{P} {text(nd + 1)}"]
     elif p == "altpre2":
-        out += [f"{ind}!{PA} {word(nd)}", f"{ind}! {word(nd + 1)}"]
+        out += [f"{ind}!{PA} {text(nd)}", f"{ind}! {text(nd + 1)}"]
     if e["gap"] == "blank":
         out.append("")
     m = nd + n_before(p)
     if p in ("inline", "pre1_inline"):
-        out.append(f"{ind}{stmt} !{D} {word(m)}")
+        out.append(f"{ind}{stmt} !{D} {text(m)}")
     else:
         out.append(f"{ind}{stmt}")
     if p in ("after1", "pre1_after1"):
-        out.append(f"{ind}!{D} {word(m)}")
+        out.append(f"{ind}!{D} {text(m)}")
     elif p == "after2":
-        out += [f"{ind}!{D} {word(m)}", f"{ind}!{D} {word(m + 1)}"]
+        out += [f"{ind}!{D} {text(m)}", f"{ind}!{D} {text(m + 1)}"]
     elif p == "altafter2":
-        out += [f"{ind}!{DA} {word(m)}", f"{ind}! {word(m + 1)}"]
+        out += [f"{ind}!{DA} {text(m)}", f"{ind}! {text(m + 1)}"]
     out += closer
     out += {"none": [], "blank": [""], "comment": [f"{ind}! c"], "blank_comment": ["", f"{ind}! c"]}[e["sep"]]
     return out
 
 
-def render_routing(ents, ctx, marks):
-    """Returns (source text, list of (locator, expected words))."""
+def render_routing(ents, ctx, marks, head=0):
+    """Returns (source text, list of (locator, expected words)).  head = 1: the container carries its own documentation
+    directly after its opening statement (DocRoute.head) and the file carries documentation before the first unit."""
     lines, expect = [], []
-    nd = 0
+    nd = head
+    D = marks["docmark"]
+    hd = lambda ind: [f"{ind}!{D} {text(0)}"] if head else []
+    if head:
+        lines.append(f"!{D} {text(90)}")
+        expect.append((("file", ""), words_of(90)))
     if ctx == "spec":
-        lines += ["module m", "  implicit none"]
+        lines += ["module m"] + hd("  ") + ["  implicit none"]
+        if head:
+            expect.append((("container", "m"), words_of(0)))
         for i, e in enumerate(ents, start=1):
             if e["kind"] == "simple":
                 stmt = [f"integer :: v{i}", f"real, parameter :: v{i} = 1.0", f"character(len=3), dimension(2) :: v{i}"][i % 3]
@@ -98,7 +121,7 @@ def render_routing(ents, ctx, marks):
                 else:
                     stmt, closer, loc = f"type, public :: t{i}", [f"    real :: comp{i}", f"  end type t{i}"], ("type", f"t{i}")
             lines += entity_lines(i, e, nd, marks, stmt, closer)
-            expect.append((loc, [word(nd + k) for k in range(n_docs(e["p"]))]))
+            expect.append((loc, expected_words(nd, n_docs(e["p"]))))
             nd += n_docs(e["p"])
         lines.append("contains")
         for i, e in enumerate(ents, start=1):
@@ -106,41 +129,55 @@ def render_routing(ents, ctx, marks):
                 lines += [f"  subroutine impl{i}(a)", "    integer :: a", f"  end subroutine impl{i}"]
         lines.append("end module m")
     elif ctx == "procs":
-        lines += ["module m", "  implicit none", "contains"]
+        lines += ["module m"] + hd("  ") + ["  implicit none", "contains"]
+        if head:
+            expect.append((("container", "m"), words_of(0)))
         for i, e in enumerate(ents, start=1):
             if i % 2:
                 stmt, closer, loc = f"subroutine s{i}(a)", ["    integer :: a", f"  end subroutine s{i}"], ("proc", f"s{i}")
             else:
                 stmt, closer, loc = f"function s{i}(a) result(r)", ["    integer :: a, r", "    r = a", f"  end function s{i}"], ("proc", f"s{i}")
             lines += entity_lines(i, e, nd, marks, stmt, closer)
-            expect.append((loc, [word(nd + k) for k in range(n_docs(e["p"]))]))
+            expect.append((loc, expected_words(nd, n_docs(e["p"]))))
             nd += n_docs(e["p"])
         lines.append("end module m")
     elif ctx == "type":
-        lines += ["module m", "  implicit none", "  type :: holder"]
+        lines += ["module m", "  implicit none", "  type :: holder"] + hd("    ")
+        if head:
+            expect.append((("container", "holder"), words_of(0)))
         for i, e in enumerate(ents, start=1):
             stmt = f"integer :: c{i}" if i % 2 else f"real, allocatable :: c{i}(:)"
             lines += entity_lines(i, e, nd, marks, stmt, [], ind="    ")
-            expect.append((("component", f"c{i}"), [word(nd + k) for k in range(n_docs(e["p"]))]))
+            expect.append((("component", f"c{i}"), expected_words(nd, n_docs(e["p"]))))
             nd += n_docs(e["p"])
         lines += ["  end type holder", "end module m"]
     elif ctx == "args":
-        lines += ["subroutine outer(" + ", ".join(f"a{i}" for i in range(1, len(ents) + 1)) + ")"]
+        lines += ["subroutine outer(" + ", ".join(f"a{i}" for i in range(1, len(ents) + 1)) + ")"] + hd("  ")
+        if head:
+            expect.append((("container", "outer"), words_of(0)))
         for i, e in enumerate(ents, start=1):
             stmt = f"integer, intent(in) :: a{i}" if i % 2 else f"real, intent(inout) :: a{i}"
             lines += entity_lines(i, e, nd, marks, stmt, [])
-            expect.append((("arg", f"a{i}"), [word(nd + k) for k in range(n_docs(e["p"]))]))
+            expect.append((("arg", f"a{i}"), expected_words(nd, n_docs(e["p"]))))
             nd += n_docs(e["p"])
         lines += ["end subroutine outer"]
     return "\n".join(lines) + "\n", expect
 
 
 def doc_words(entity):
-    return re.findall(r"w\d\dx", " ".join(entity.doc_list))
+    return re.findall(r"w\d\dx[qr]?", " ".join(entity.doc_list))
 
 
 def find(project, loc):
     kind, name = loc
+    if kind == "file":
+        return project.files[0], None
+    if kind == "container":
+        if name == "outer":
+            return project.procedures[0], None
+        if name == "holder":
+            return project.modules[0].types[0], None
+        return project.modules[0], None
     if kind == "arg":
         outer = project.procedures[0]
         return next((a for a in outer.args if a.name == name), None), outer
@@ -169,7 +206,8 @@ def evaluate_routing(case):
             continue
         for ms in case["marksets"]:
             marks = MARKSETS[ms]
-            text, expect = render_routing(ents, ctx, marks)
+            text, expect = render_routing(ents, ctx, marks, case.get("head", 0))
+            head = case.get("head", 0)
             bad = []
             try:
                 p = fordrun.project({"case.f90": text}, **marks)
@@ -179,7 +217,8 @@ def evaluate_routing(case):
                     containers = set()
                     for loc, words in expect:
                         ent, cont = find(p, loc)
-                        containers.add(id(cont))
+                        if cont is not None:
+                            containers.add(id(cont))
                         if ent is None:
                             bad.append(f"{loc} not reported")
                             continue
@@ -188,10 +227,15 @@ def evaluate_routing(case):
                             bad.append(f"{loc[0]} {loc[1]}: documentation words {got}, its comments hold {words}")
                     # nothing may leak into the container (module / type / procedure itself has no comment)
                     top = p.modules[0] if p.modules else p.procedures[0]
-                    if doc_words(top):
-                        bad.append(f"container {top.name} received {doc_words(top)}")
-                    if p.modules and p.modules[0].types and ctx == "type" and doc_words(p.modules[0].types[0]):
-                        bad.append(f"type holder received {doc_words(p.modules[0].types[0])}")
+                    own_top = words_of(0) if (head and ctx != "type") else []
+                    if doc_words(top) != own_top:
+                        bad.append(f"container {top.name} holds {doc_words(top)}, its own comments hold {own_top}")
+                    own_holder = words_of(0) if head else []
+                    if p.modules and p.modules[0].types and ctx == "type" and doc_words(p.modules[0].types[0]) != own_holder:
+                        bad.append(f"type holder holds {doc_words(p.modules[0].types[0])}, its own comments hold {own_holder}")
+                    own_file = words_of(90) if head else []
+                    if doc_words(p.files[0]) != own_file:
+                        bad.append(f"source file holds {doc_words(p.files[0])}, its own comments hold {own_file}")
             except Exception as ex:
                 bad.append(f"FORD failed: {type(ex).__name__}: {ex}")
             out.append({"ctx": ctx, "marks": ms, "bad": bad, "text": text if bad else None})
@@ -268,7 +312,7 @@ def _parse_route(block):
     if '/\\ phase = "done"' not in block:
         return None
     st = tlaval.parse_state(block)
-    return {"ents": [dict(e) for e in st["ents"]]}
+    return {"ents": [dict(e) for e in st["ents"]], "head": int(st["head"])}
 
 
 def _parse_body(block):
@@ -315,7 +359,7 @@ def run(tier, seed, ck: Check):
     finally:
         shutil.rmtree(scratch, ignore_errors=True)
     if not big:
-        routes = [c for c in routes if zlib.crc32(json.dumps(c["ents"], sort_keys=True).encode()) % 4 == seed % 4]
+        routes = [c for c in routes if zlib.crc32(json.dumps([c["ents"], c["head"]], sort_keys=True).encode()) % 8 == seed % 8]
         bodies = [c for c in bodies if zlib.crc32(json.dumps(c["body"], sort_keys=True).encode()) % 6 == seed % 6]
     elif len(routes) > 150000:
         routes = [c for c in routes if zlib.crc32(json.dumps(c["ents"], sort_keys=True).encode()) % (len(routes) // 150000 + 1) == 0]
@@ -327,11 +371,11 @@ def run(tier, seed, ck: Check):
     ck.coverage["body_cases"] = len(bodies)
     for c, rs in zip(routes, pool.pmap(evaluate_routing, routes, chunksize=50)):
         if any(e["p"] != "none" for e in c["ents"]) and len(c["ents"]) >= 2:
-            ck.nontrivial_case("r" + json.dumps(c["ents"], sort_keys=True))
+            ck.nontrivial_case("r" + json.dumps([c["ents"], c["head"]], sort_keys=True))
         for r_ in rs:
             ck.count()
             for b in r_["bad"][:2]:
-                ck.violation("routing", {"ents": c["ents"], "ctx": r_["ctx"], "marks": r_["marks"]}, detail=f"[{r_['ctx']}/{r_['marks']}] {b}", extra={"source": r_["text"]})
+                ck.violation("routing", {"ents": c["ents"], "head": c["head"], "ctx": r_["ctx"], "marks": r_["marks"]}, detail=f"[{r_['ctx']}/{r_['marks']}] {b}", extra={"source": r_["text"]})
     for c, r_ in zip(bodies, pool.pmap(evaluate_body, bodies, chunksize=200)):
         ck.count()
         if any(l["start"] or l["end"] for l in c["body"]):
@@ -340,7 +384,7 @@ def run(tier, seed, ck: Check):
             ck.violation("body", {"body": c["body"], "model": c["result"]}, detail=f"{r_['lines']!r}: {b}")
     ck.coverage["traces_validated_against_impl"] = len(bodies)
     if routes:
-        ck.sample({"routing_case": routes[len(routes) // 2]["ents"], "source": render_routing(routes[len(routes) // 2]["ents"], "spec", MARKSETS["default"])[0]})
+        ck.sample({"routing_case": routes[len(routes) // 2]["ents"], "source": render_routing(routes[len(routes) // 2]["ents"], "spec", MARKSETS["default"], routes[len(routes) // 2]["head"])[0]})
     if bodies:
         ck.sample({"body_case": [render_line(l) for l in bodies[len(bodies) // 2]["body"]], "model_output": [model_line(o) for o in bodies[len(bodies) // 2]["result"]["lines"]]})
     ck.assumptions += [
@@ -356,7 +400,7 @@ def replay_file(path, ck):
     c = rec["case"]
     ck.count(); ck.nontrivial_case("r1"); ck.nontrivial_case("r2")
     if rec["kind"] == "routing":
-        rs = evaluate_routing({"ents": c["ents"], "ctxs": (c["ctx"],), "marksets": (c["marks"],)})
+        rs = evaluate_routing({"ents": c["ents"], "head": c.get("head", 0), "ctxs": (c["ctx"],), "marksets": (c["marks"],)})
         ck.sample({"case": c, "result": rs})
         for r_ in rs:
             for b in r_["bad"][:2]:
